@@ -21,7 +21,8 @@ func init() {
 			"(R4, limits) Scan sets the two flags only after its entry-count test passed (so lastScanEntryCount ≤ maximumEntryCount whenever a flag is set and the unsigned subtraction in Stage cannot wrap); Stage refuses when maximum−lastScan < len(paths) (for a non-zero maximum) before it generates the lookup map or touches the stager; Transition's running count starts at lastScanEntryCount, refuses removals larger than the count, adds New.Count(), and core.Transition is reached only on the edges «maximum == 0» or «¬(maximum < resulting count)»; the over-limit exit returns the old entries, a problem and no error; " +
 			"(R5) the flag and count fields are read and written in Stage/Transition only while the scan lock is held (lockScanLock … unlockScanLock). " +
 			"(R6) the store's Contains may answer «not staged» from its in-memory prefix index only because Initialize rebuilds that index by listing the existing staging root — content staged before an interruption is found again and not requested twice; " +
-			"Not decided: what the stager's Contains/Sink do; Entry.Count arithmetic.",
+			"(R8) Store.Contains reports true only on a way on which os.Lstat of the content's target path has just succeeded — the directory's verdict now, not a record of earlier commits (which would outlive Finalize); " +
+			"Not decided: what Sink does; Entry.Count arithmetic.",
 		Assumptions: []string{"stager.Contains reports whether content with that digest is staged for that path"},
 		Run:         runC41,
 	})
@@ -38,6 +39,7 @@ func edgeGuards(p, s *ssa.BasicBlock) []eng.Atom {
 
 func runC41(c *eng.Ctx) {
 	c41PrefixIndexComplete(c)
+	c41ContainsAsksTheDisk(c)
 	st := c.MustFunc("R1", localEPPkg, "endpoint.Stage")
 	sfr := c.MustFunc("R2", localEPPkg, "endpoint.stageFromRoot")
 	tr := c.MustFunc("R3", localEPPkg, "endpoint.Transition")
